@@ -4,3 +4,8 @@ from checks.containers import run_container
 
 def run(tier, seed):
     return run_container("C01", "hg", tier, seed, cc=False)
+
+
+def replay(path):
+    from checks.containers import replay_container
+    return replay_container("C01", path)
